@@ -810,6 +810,99 @@ Proof.
   now exists calls, fs', reads.
 Qed.
 
+(* ------------------------------------------------------------------ the descriptor is the caller's *)
+
+Lemma read_taken_complete : forall app_ok sched data rpos,
+  always app_ok -> Forall ge1 sched -> 0 <= rpos <= zlen data -> zlen data - rpos < zlen sched ->
+  read_taken app_ok sched (zskipn rpos data) rpos = zlen data - rpos.
+Proof.
+  intros app_ok sched data rpos HA. revert rpos.
+  induction sched as [|x sched IH]; intros rpos HF H0 Hs; cbn [zlen] in Hs; [lia|].
+  inversion HF as [|? ? Hx HF']; subst.
+  destruct x as [n|e]; cbn [ge1] in Hx; [|contradiction].
+  cbn [read_taken]. rstep data rpos n H0 ret Hret.
+  destruct (0 <? ret) eqn:E.
+  - rewrite HA. rewrite zskipn_zskipn by lia.
+    rewrite IH by (trivial; unfold JSON_FILE_BUF_SIZE in *; lia). lia.
+  - unfold JSON_FILE_BUF_SIZE in *. lia.
+Qed.
+
+Lemma read_taken_prefix : forall app_ok pre e post data rpos,
+  always app_ok -> Forall ge1 pre -> 0 <= rpos -> rpos + rsum pre <= zlen data ->
+  read_taken app_ok (pre ++ Err e :: post) (zskipn rpos data) rpos = rsum pre.
+Proof.
+  intros app_ok pre e post data rpos HA. revert rpos.
+  induction pre as [|x pre IH]; intros rpos HF H0 Hs; [reflexivity|].
+  inversion HF as [|? ? Hx HF']; subst. pose proof (rsum_nonneg _ HF') as Hn.
+  destruct x as [n|e']; cbn [ge1] in Hx; [|contradiction].
+  cbn [rsum] in *. cbn [app read_taken].
+  assert (H : 0 <= rpos <= zlen data) by (unfold JSON_FILE_BUF_SIZE in *; lia).
+  rstep data rpos n H ret Hret.
+  assert (Hr : ret = Z.min n JSON_FILE_BUF_SIZE) by (unfold JSON_FILE_BUF_SIZE in *; lia). clear Hret. subst ret.
+  replace (0 <? Z.min n JSON_FILE_BUF_SIZE) with true by (unfold JSON_FILE_BUF_SIZE; lia).
+  rewrite HA. rewrite zskipn_zskipn by (unfold JSON_FILE_BUF_SIZE; lia).
+  rewrite IH by (trivial; unfold JSON_FILE_BUF_SIZE in *; lia). reflexivity.
+Qed.
+
+(* read_as_memory for a descriptor at an arbitrary position 0 <= pos <= |file| (the end included):
+   what is parsed is exactly file[pos:], with the configured depth; the descriptor is left at the
+   end of the file *)
+Theorem read_as_memory_at : forall parse app_ok sched file pos in_depth,
+  0 <= pos <= zlen file ->
+  always app_ok -> Forall ge1 sched -> zlen file - pos < zlen sched -> 1 <= eff_depth in_depth ->
+  exists reads, object_from_fd_at parse app_ok sched file pos in_depth =
+                  (RRet (memory_result parse in_depth (zskipn pos file) reads), zlen file)
+                /\ 1 <= reads <= zlen file - pos + 1.
+Proof.
+  intros parse app_ok sched file pos in_depth Hp HA HF Hl Hd.
+  assert (L : zlen (zskipn pos file) = zlen file - pos) by (rewrite zlen_zskipn; lia).
+  destruct (read_as_memory parse app_ok sched (zskipn pos file) in_depth HA HF) as (reads & E & B); [lia|exact Hd|].
+  exists reads. split; [|lia].
+  unfold object_from_fd_at. fold (eff_depth in_depth). rewrite E.
+  replace (eff_depth in_depth <? 1) with false by lia.
+  pose proof (read_taken_complete app_ok sched (zskipn pos file) 0 HA HF) as T.
+  rewrite zskipn_0 in T. rewrite T by lia. f_equal. lia.
+Qed.
+
+(* a read error at call |pre|+1: reported as before, the descriptor stands behind the bytes the
+   earlier calls delivered *)
+Theorem read_error_at : forall parse app_ok pre e post file pos in_depth,
+  0 <= pos <= zlen file ->
+  always app_ok -> Forall ge1 pre -> pos + rsum pre <= zlen file -> 1 <= eff_depth in_depth ->
+  object_from_fd_at parse app_ok (pre ++ Err e :: post) file pos in_depth =
+    (RRet (mkrout JNull MRead (zlen pre + 1) None 0), pos + rsum pre).
+Proof.
+  intros parse app_ok pre e post file pos in_depth Hp HA HF Hs Hd.
+  assert (L : zlen (zskipn pos file) = zlen file - pos) by (rewrite zlen_zskipn; lia).
+  unfold object_from_fd_at. fold (eff_depth in_depth).
+  rewrite read_error by (trivial; lia).
+  replace (eff_depth in_depth <? 1) with false by lia.
+  pose proof (read_taken_prefix app_ok pre e post (zskipn pos file) 0 HA HF) as T.
+  rewrite zskipn_0 in T. rewrite T by lia. reflexivity.
+Qed.
+
+(* json_object_to_fd on a positioned descriptor: the serialization lands at the position (what
+   was there before and behind stays), or at the end with O_APPEND; the position moves behind it *)
+Theorem to_fd_at_exact : forall sched old pos ser,
+  0 <= pos <= zlen old -> Forall ge1 sched -> zlen (c_str ser) <= wsum sched ->
+  exists calls,
+    object_to_fd_at sched old pos false false (Some ser) =
+      (WRet 0 false (c_str ser) calls,
+       zfirstn pos old ++ c_str ser ++ zskipn (pos + zlen (c_str ser)) old,
+       pos + zlen (c_str ser))
+    /\ object_to_fd_at sched old pos true false (Some ser) =
+      (WRet 0 false (c_str ser) calls, old ++ c_str ser,
+       match c_str ser with [] => pos | _ => zlen old + zlen (c_str ser) end).
+Proof.
+  intros sched old pos ser Hp HF Hs.
+  destruct (write_exact sched ser HF Hs) as (calls & E & _).
+  exists calls. unfold object_to_fd_at. rewrite E. cbn [wout_dev]. split.
+  - f_equal. destruct (c_str ser); cbn [zlen]; lia.
+  - unfold desc_write. rewrite zfirstn_all by lia.
+    pose proof (zlen_nonneg (c_str ser)). rewrite zskipn_all by lia. rewrite app_nil_r.
+    destruct (c_str ser); reflexivity.
+Qed.
+
 (* ------------------------------------------------------------------ non-vacuity *)
 
 (* "hello" = 104 101 108 108 111 *)
@@ -886,4 +979,18 @@ Example file_nonvacuous :
     (WRet (-1) true [] 1, fs, 1, 1)
   /\ object_to_file_with (mkofl O_WRONLY true false true false) None fs [97] [Short 9] false (Some [91;49;93]) =
     (WRet 0 false [91;49;93] 1, [([97], [49;50;51;52;53;54;55;56;57;91;49;93])], 1, 1).
+Proof. repeat split. Qed.
+
+(* the caller consumed "#hdr\n" (5 bytes) of "#hdr\n[1]": the document is what follows *)
+Example position_nonvacuous :
+  object_from_fd_at show_parse (fun _ _ => true) [Short 2; Short 9; Short 9] [35;104;100;114;10;91;49;93] 5 7 =
+    (RRet (mkrout (JArr [JInt 7; JStr [91;49;93]]) MNone 3 (Some (7, [91;49;93], 1)) 0), 8)
+  /\ object_from_fd_at show_parse (fun _ _ => true) [Short 9] [91;49;93] 3 7 =
+    (RRet (mkrout (JArr [JInt 7; JStr []]) MNone 1 (Some (7, [], 1)) 0), 3)
+  /\ object_from_fd_at show_parse (fun _ _ => true) [Short 1; Err 4] [35;10;91;49;93] 2 7 =
+    (RRet (mkrout JNull MRead 2 None 0), 3)
+  /\ object_to_fd_at [Short 1; Short 9] [49;50;51;52;53;54] 2 false false (Some [91;93]) =
+    (WRet 0 false [91;93] 2, [49;50;91;93;53;54], 4)
+  /\ object_to_fd_at [Short 1; Short 9] [49;50;51;52;53;54] 2 true false (Some [91;93]) =
+    (WRet 0 false [91;93] 2, [49;50;51;52;53;54;91;93], 8).
 Proof. repeat split. Qed.
